@@ -120,7 +120,7 @@ def plan_tx(tier, seed, props):
     for o in (KEYS, O(keys=["id"], merge=True)):
         items += [item("keyed_2", o, 0.5 if q else 1.0), item("keyeddeep", o, 1.0)]
     items += [item("strdocs", NONE, 0.5 if q else 1.0)]
-    items += [dict(family="hunks_wf", opts=NONE, frac=1.0, void=False, mode="built", max=4000 if q else 60000, nf=False)]
+    items += [dict(family="hunks_wf", opts=NONE, frac=1.0, void=False, mode="built", max=4000 if q else 30000, nf=False)]
     return items
 
 
